@@ -473,10 +473,41 @@ func (x *gRun) timed(f func(), what string) bool {
 	}
 }
 
+// liveness of a stored entry for an observation that ran in [g0,g1]: +1 alive (the observation finished before
+// the earliest possible expiration), 0 expired (it started after the latest possible one), -1 in between.
+func (e gEntry) liveness(g0, g1 time.Time) int {
+	switch {
+	case e.ttl == 0 || g1.Before(e.t0.Add(e.ttl)):
+		return 1
+	case g0.After(e.t1.Add(e.ttl)):
+		return 0
+	}
+	return -1
+}
+
 func (x *gRun) doGet(k int) {
 	m := x.m
+	g0 := time.Now()
 	v, ok := x.cl.Get(k)
+	g1 := time.Now()
 	e, has := m.store[k]
+	if has && !m.closed {
+		switch e.liveness(g0, g1) {
+		case 0:
+			has = false // expired but not swept (episodes with short TTLs run without sweeps): a miss
+		case -1:
+			m.getsTotal++
+			if ok {
+				m.m.hits++
+			} else {
+				m.m.misses++
+			}
+			if ok && v != e.val {
+				x.mismatch("get-mismatch", fmt.Sprintf("Get(k%d) returned %#x, the entry holds %#x", k, v, e.val))
+			}
+			return // around the expiration instant either answer is right
+		}
+	}
 	if m.closed {
 		has = false
 	} else {
@@ -505,8 +536,17 @@ func (x *gRun) doGetTTL(k int) {
 	m := x.m
 	before := time.Now()
 	d, ok := x.cl.GetTTL(k)
+	after := time.Now()
 	e, has := m.store[k]
 	x.tr("GetTTL(k%d)=(%v,%v)", k, d, ok)
+	if has {
+		switch e.liveness(before, after) {
+		case 0:
+			has = false
+		case -1:
+			return
+		}
+	}
 	if ok != has {
 		x.mismatch("getttl-mismatch", fmt.Sprintf("GetTTL(k%d) found=%v, reference says %v", k, ok, has))
 		return
@@ -529,11 +569,19 @@ func (x *gRun) doGetTTL(k int) {
 
 func (x *gRun) doIter() {
 	m := x.m
+	g0 := time.Now()
 	vals := x.cl.IterValues(-1)
+	g1 := time.Now()
 	want := map[uint64]int{}
+	maybe := map[uint64]bool{}
 	if !m.closed {
 		for _, e := range m.store {
-			want[e.val]++
+			switch e.liveness(g0, g1) {
+			case 1:
+				want[e.val]++
+			case -1:
+				maybe[e.val] = true
+			}
 		}
 	}
 	got := map[uint64]int{}
@@ -542,6 +590,9 @@ func (x *gRun) doIter() {
 	}
 	x.tr("IterValues -> %d values", len(vals))
 	for v, n := range got {
+		if maybe[v] && n == 1 {
+			continue
+		}
 		if want[v] != n {
 			x.mismatch("iter-mismatch", fmt.Sprintf("IterValues yielded %#x %d time(s), reference holds it %d time(s)", v, n, want[v]))
 			return
@@ -900,6 +951,9 @@ func (x *gRun) exec(op gOp) {
 		for i := 0; i < max(1, op.N) && !x.failed; i++ {
 			x.step()
 		}
+	case "sleep":
+		time.Sleep(time.Duration(max(1, op.N)) * time.Millisecond)
+		x.tr("sleep %d ms", max(1, op.N))
 	case "clear":
 		x.doClearOrClose(false)
 	case "close":
@@ -992,6 +1046,8 @@ func genGatedOps(rng *lab.RNG, nk, n int, w map[string]int, costs []int64, ttls 
 			op.TTL = ttls[rng.Intn(len(ttls))]
 		case "step":
 			op.N = 1 + rng.Intn(3)
+		case "sleep":
+			op.N = 2 + rng.Intn(10)
 		}
 		ops = append(ops, op)
 	}
